@@ -126,6 +126,9 @@ func (t *Type) Str(q Qual) string {
 	case Chan, Func:
 		return t.Text
 	case Iface:
+		if t.Name != "" {
+			return t.Name
+		}
 		return "interface{}"
 	case UPtr:
 		return "unsafe.Pointer"
